@@ -19,6 +19,7 @@ cfg_if::cfg_if! {
 struct InnerTimer {
     start: Option<Instant>,
     elapsed: Duration,
+    suspended: bool,
     subtimers: SubTimersMap,
 }
 
@@ -26,6 +27,7 @@ impl InnerTimer {
     fn reset(&mut self) {
         self.start = None;
         self.elapsed = Duration::ZERO;
+        self.suspended = false;
         self.subtimers.clear();
     }
 
@@ -43,6 +45,7 @@ impl InnerTimer {
         //subtimers if this timer appears active
         if let Some(instant) = self.start {
             self.elapsed += instant.elapsed();
+            self.suspended = true;
             self.subtimers.suspend();
         }
     }
@@ -52,12 +55,19 @@ impl InnerTimer {
         //just refresh start time to now.
         if self.start.is_some() {
             self.start = Some(Instant::now());
+            self.suspended = false;
             self.subtimers.resume();
         }
     }
 
     fn elapsed(&self) -> Duration {
-        self.elapsed
+        //include the span currently being timed, so that
+        //time limits see the time spent since the last
+        //suspend / resume rather than a stale total
+        match self.start {
+            Some(instant) if !self.suspended => self.elapsed + instant.elapsed(),
+            _ => self.elapsed,
+        }
     }
 }
 
